@@ -40,6 +40,12 @@ Theorem C23_version_2p53_refuted : exists ops, redis_map_run cfP ops <> mem_map_
 Proof. exists w_version_2p53. exact version_2p53_differs. Qed.
 Theorem C23_state_limit0_revision_refuted : exists ops, redis_map_run cfP ops <> mem_map_run cfP ops.
 Proof. exists w_state_limit0_rev. exact state_limit0_rev_differs. Qed.
+Theorem C23_ephemeral_epoch_refuted : exists cfg ops, redis_map_run cfg ops <> mem_map_run cfg ops.
+Proof. exists cfE, w_ephemeral_epoch. exact ephemeral_epoch_differs. Qed.
+Theorem C23_ephemeral_keymode_refuted : exists cfg ops, redis_map_run cfg ops <> mem_map_run cfg ops.
+Proof. exists cfE, w_ephemeral_keymode. destruct ephemeral_keymode_differs as [-> ->]. discriminate. Qed.
+Theorem C23_clear_idempotency_refuted : exists ops, redis_map_run cfP ops <> mem_map_run cfP ops.
+Proof. exists w_clear_idem. exact clear_idem_differs. Qed.
 (* after Clear, ReadStream re-creates the channel with the SAME epoch (the node id) on Redis *)
 Theorem C23_clear_epoch_reuse_refuted :
   exists ops, nth 0 (redis_map_run cfP ops) MErr = nth 2 (redis_map_run cfP ops) MErr /\
